@@ -172,6 +172,20 @@ fn check_pair(a: &UVal, b: &UVal) -> Result<u64, String> {
             }
         }
     }
+    // ---- the same law with a pronoun as destination (the referent named just before; the operands name others)
+    for (op, sym) in [("+", "plus"), ("-", "minus"), ("*", "times"), ("/", "over")] {
+        let tail = "say va\nsay va plus 1\nsay \"\" plus va\nsay vb\nsay vb plus 1\nsay \"\" plus vb\n";
+        for e in ["vb", "1, vb", "2"] {
+            let pa = format!("{}say \"\" plus va\nlet it be {} {}\n{}", pre, op, e, tail);
+            let pb = format!("{}say \"\" plus va\nlet it be it {} {}\n{}", pre, sym, e, tail);
+            let ra = run_text(&pa)?;
+            let rb = run_text(&pb)?;
+            digest ^= fnv_str(&format!("{:?}", ra));
+            if ra != rb {
+                return Err(format!("compound assignment to a pronoun differs from its expansion: {:?} vs {:?}\n--- compound:\n{}--- expanded:\n{}", ra, rb, pa, pb));
+            }
+        }
+    }
     // ---- the same laws on the library's value type
     let (va, vb) = (to_val(&a.value()), to_val(&b.value()));
     let api = guarded(|| {
@@ -272,7 +286,7 @@ impl Prop for C14 {
         80
     }
     fn cases(&self, t: Tier) -> usize {
-        t.pick(200_000, 3_000_000)
+        t.pick(120_000, 3_000_000)
     }
     fn generate(&self, t: &mut Tape) -> Case {
         let a = gen_uval(t);
